@@ -80,7 +80,7 @@ func genC01(w *World, res *CheckResult) {
 		res.Functions = append(res.Functions, "parser.parser.parsePrimaryExpression")
 	}
 	// run-time helpers: library preconditions (a violated one is a failure the definition does not name)
-	res.Obls = append(res.Obls, selectObls(genPureAll(w), `^vm\.slice/(lib-pre:|pre-sat)`, `^vm\.isNil/`)...)
+	res.Obls = append(res.Obls, selectObls(genPureAll(w), `^vm\.slice/(lib-pre:|pre-sat)`, `^vm\.isNil/`, `^vm\.length/`)...)
 	res.Functions = append(res.Functions, "vm.slice")
 	for n := range w.Funcs {
 		if strings.HasPrefix(n, "compiler.compiler.") && strings.HasSuffix(n, "Node") {
@@ -111,6 +111,8 @@ func genC15(w *World, res *CheckResult) {
 	res.Obls = append(res.Obls, selectObls(genPureAll(w), `^vm\.equal/`)...)
 	res.Functions = append(res.Functions, "vm.equal", "compiler.compiler.BinaryNode", "compiler.compiler.IdentifierNode", "compiler.compiler.IntegerNode")
 	genCheckerPointer(w, res)
+	// the selection reads the types the checker recorded: every subtree must have been visited
+	genCheckerVisits(w, res)
 	// static types the selection relies on: checker.combined predicts the helpers' result kind (cells shared with C14, C03)
 	{
 		e14 := NewExec(w)
